@@ -169,7 +169,7 @@ func cmdCheck(args []string) int {
 		if c.NoBody || c.Trusted || c.Pkg == "" {
 			continue
 		}
-		if strings.HasPrefix(c.Name, "iface ") || strings.HasPrefix(c.Name, "field ") || strings.HasPrefix(c.Name, "global ") || strings.HasPrefix(c.Name, "param ") || strings.HasPrefix(c.Name, "captured ") || strings.HasPrefix(c.Name, "result ") {
+		if strings.HasPrefix(c.Name, "iface ") || strings.HasPrefix(c.Name, "field ") || strings.HasPrefix(c.Name, "global ") || strings.HasPrefix(c.Name, "param ") || strings.HasPrefix(c.Name, "captured ") || strings.HasPrefix(c.Name, "result ") || strings.HasPrefix(c.Name, "type ") || strings.HasPrefix(c.Name, "local ") {
 			continue
 		}
 		if *prop != "" && !hasProp(c.Props, *prop) {
